@@ -436,7 +436,7 @@ func c06Registration(r *core.Run, root []*ssa.Function) {
 		}
 	}
 	guards := panicGuards(add)
-	g, ok := guards["!cond(call:(Pattern).IsValid)"]
+	g, ok := panicsUnlessCall(add, "IsValid")
 	r.Check(ok && fetchCall != nil && core.Dominates(g, fetchCall), "R3", core.FuncName(add), "IsValid-panic-before-fetch", p.Pos(add.Pos()), "an invalid pattern panics before the trie is touched", "add() does not reject invalid patterns before inserting nodes")
 	hsField := core.Field{Struct: "node", Name: "hs"}
 	for _, ac := range core.FieldAccesses([]*ssa.Function{add}, func(f core.Field) bool { return f == hsField }) {
@@ -453,7 +453,7 @@ func c06Registration(r *core.Run, root []*ssa.Function) {
 			r.Unres("R3", nm[1], "not found")
 			continue
 		}
-		_, ok := panicGuards(fn)["!cond(call:isValidPath)"]
+		_, ok := panicsUnlessCall(fn, "isValidPath")
 		r.Check(ok, "R3", core.FuncName(fn), "isValidPath-panic", p.Pos(fn.Pos()), "invalid paths are rejected by panic", nm[1]+" does not reject invalid paths")
 	}
 	if fn := byName("Mux", "Mount"); fn != nil {
